@@ -10,7 +10,7 @@ sys.path.insert(0, ROOT)
 from tools.manifest_data import CHECKS, ENGINES, NOT_BUILT_REASON  # noqa: E402
 
 props = [json.loads(l) for l in open(os.path.join(ROOT, "properties.jsonl"))]
-hooks_commits = subprocess.run(["git", "-C", "/repo", "log", "--format=%h %s", "--grep=verification hook", "-i"],
+hooks_commits = subprocess.run(["git", "-C", "/repo", "log", "--format=%h %s", "--grep=env-guarded", "-i"],
                                stdout=subprocess.PIPE, text=True).stdout.strip().splitlines()
 m = {
     "version": 1,
